@@ -234,6 +234,32 @@ func (c *Ctl) Find(name string) *k3thread {
 	return nil
 }
 
+// StepAssumeDone is Step for goroutines that end without announcing it (no VerifDone on their path): if the thread
+// neither parks again nor reports its end within `grace`, it is taken to have finished.
+func (c *Ctl) StepAssumeDone(name string, grace time.Duration) (from, to string, fresh []*k3thread, err error) {
+	old := c.timeout
+	c.timeout = grace
+	from, to, fresh, err = c.Step(name)
+	c.timeout = old
+	if err != nil {
+		if _, ok := err.(K3Stuck); ok {
+			if t := c.Find(name); t != nil {
+				c.mu.Lock()
+				still := t.parked
+				if !still {
+					t.done = true
+				}
+				c.mu.Unlock()
+				if !still {
+					c.Trace = append(c.Trace, fmt.Sprintf("%s:%s->done(assumed)", name, from))
+					return from, "done", fresh, nil
+				}
+			}
+		}
+	}
+	return
+}
+
 // Step releases a parked thread; returns its from/to labels and the threads that appeared.
 func (c *Ctl) Step(name string) (from, to string, fresh []*k3thread, err error) {
 	t := c.Find(name)
